@@ -32,14 +32,26 @@ pub trait Backend {
     fn cancel(&self, task: u64);
     /// Called at every lock acquisition; `true` = suspend the caller once.
     fn yield_at_lock(&self) -> bool;
+    /// Called right after a write lock has been acquired; `true` = suspend the caller once
+    /// while it holds the lock (on a multi-threaded runtime other tasks run during that time).
+    fn yield_holding_lock(&self) -> bool {
+        false
+    }
 }
 
 thread_local! {
     static BACKEND: RefCell<Option<Rc<dyn Backend>>> = const { RefCell::new(None) };
+    /// bumped by every `install`: state kept in statics (the lock gates) belongs to one epoch
+    static EPOCH: std::cell::Cell<u64> = const { std::cell::Cell::new(0) };
 }
 
 pub fn install(backend: Rc<dyn Backend>) {
+    EPOCH.with(|e| e.set(e.get() + 1));
     BACKEND.with(|b| *b.borrow_mut() = Some(backend));
+}
+
+fn epoch() -> u64 {
+    EPOCH.with(std::cell::Cell::get)
 }
 
 pub fn uninstall() {
@@ -72,10 +84,15 @@ fn spawn_on<T: Send + 'static>(
 }
 
 /// Ready at once without a backend; otherwise suspends the caller once if the backend says so.
-pub struct YieldPoint(bool);
+pub struct YieldPoint(bool, bool);
 
 pub fn yield_point() -> YieldPoint {
-    YieldPoint(false)
+    YieldPoint(false, false)
+}
+
+/// The same for the moment right after a write lock was acquired.
+pub fn held_point() -> YieldPoint {
+    YieldPoint(false, true)
 }
 
 impl Future for YieldPoint {
@@ -85,8 +102,9 @@ impl Future for YieldPoint {
             return Poll::Ready(());
         }
         self.0 = true;
+        let holding = self.1;
         match backend() {
-            Some(b) if b.yield_at_lock() => {
+            Some(b) if (if holding { b.yield_holding_lock() } else { b.yield_at_lock() }) => {
                 cx.waker().wake_by_ref();
                 Poll::Pending
             }
@@ -95,58 +113,239 @@ impl Future for YieldPoint {
     }
 }
 
-/// Same paths as the parts of `async_lock` hannibal uses; guards are the real ones.
+/// Same paths as the parts of `async_lock` hannibal uses.
+///
+/// Without a backend every call forwards to the real lock. With one installed, waiting happens
+/// at a small deterministic gate in front of the real lock (FIFO wake-up, no clocks), so the real
+/// lock is never contended: `async_lock` decides fairness under contention with `Instant::now()`,
+/// which a controlled executor cannot own. The guards wrap the real guards.
 pub mod async_lock_shim {
-    pub use ::async_lock::{MutexGuard, RwLockReadGuard, RwLockWriteGuard};
+    use std::{
+        ops::{Deref, DerefMut},
+        task::{Poll, Waker},
+    };
 
     #[derive(Debug, Default)]
-    pub struct RwLock<T>(::async_lock::RwLock<T>);
+    struct GateState {
+        /// the `install` epoch this state belongs to; state left behind by an earlier controlled
+        /// run (the registry lock is a static) is discarded
+        epoch: u64,
+        writer: bool,
+        readers: usize,
+        waiters: Vec<Waker>,
+    }
+
+    #[derive(Debug, Default)]
+    struct Gate(std::sync::Mutex<GateState>);
+
+    impl Gate {
+        const fn new() -> Self {
+            Gate(std::sync::Mutex::new(GateState {
+                epoch: 0,
+                writer: false,
+                readers: 0,
+                waiters: Vec::new(),
+            }))
+        }
+        fn state(&self) -> std::sync::MutexGuard<'_, GateState> {
+            let mut st = self.0.lock().unwrap_or_else(std::sync::PoisonError::into_inner);
+            if st.epoch != super::epoch() {
+                *st = GateState {
+                    epoch: super::epoch(),
+                    ..GateState::default()
+                };
+            }
+            st
+        }
+        fn pass(&self, write: bool) -> Pass<'_> {
+            Pass {
+                gate: self,
+                write,
+                epoch: super::epoch(),
+            }
+        }
+        fn try_enter(&self, write: bool) -> bool {
+            let mut st = self.state();
+            if st.writer || (write && st.readers > 0) {
+                return false;
+            }
+            if write {
+                st.writer = true;
+            } else {
+                st.readers += 1;
+            }
+            true
+        }
+        async fn enter(&self, write: bool) {
+            std::future::poll_fn(|cx| {
+                if self.try_enter(write) {
+                    Poll::Ready(())
+                } else {
+                    self.state().waiters.push(cx.waker().clone());
+                    Poll::Pending
+                }
+            })
+            .await;
+        }
+        fn leave(&self, write: bool) {
+            let waiters = {
+                let mut st = self.state();
+                if write {
+                    st.writer = false;
+                } else {
+                    st.readers = st.readers.saturating_sub(1);
+                }
+                std::mem::take(&mut st.waiters)
+            };
+            for w in waiters {
+                w.wake();
+            }
+        }
+    }
+
+    /// Releases the gate when the guard that owns it goes away.
+    #[derive(Debug)]
+    struct Pass<'a> {
+        gate: &'a Gate,
+        write: bool,
+        epoch: u64,
+    }
+
+    impl Drop for Pass<'_> {
+        fn drop(&mut self) {
+            if self.epoch == super::epoch() {
+                self.gate.leave(self.write);
+            }
+        }
+    }
+
+    // (field order: the real guard is released before the gate lets the next task in)
+    #[derive(Debug)]
+    pub struct RwLockReadGuard<'a, T>(::async_lock::RwLockReadGuard<'a, T>, Option<Pass<'a>>);
+    #[derive(Debug)]
+    pub struct RwLockWriteGuard<'a, T>(::async_lock::RwLockWriteGuard<'a, T>, Option<Pass<'a>>);
+    #[derive(Debug)]
+    pub struct MutexGuard<'a, T>(::async_lock::MutexGuard<'a, T>, Option<Pass<'a>>);
+
+    impl<T> Deref for RwLockReadGuard<'_, T> {
+        type Target = T;
+        fn deref(&self) -> &T {
+            &self.0
+        }
+    }
+    impl<T> Deref for RwLockWriteGuard<'_, T> {
+        type Target = T;
+        fn deref(&self) -> &T {
+            &self.0
+        }
+    }
+    impl<T> DerefMut for RwLockWriteGuard<'_, T> {
+        fn deref_mut(&mut self) -> &mut T {
+            &mut self.0
+        }
+    }
+    impl<T> Deref for MutexGuard<'_, T> {
+        type Target = T;
+        fn deref(&self) -> &T {
+            &self.0
+        }
+    }
+    impl<T> DerefMut for MutexGuard<'_, T> {
+        fn deref_mut(&mut self) -> &mut T {
+            &mut self.0
+        }
+    }
+
+    const UNCONTENDED: &str = "verif: the real lock is free whenever the gate lets a task in";
+
+    #[derive(Debug, Default)]
+    pub struct RwLock<T>(::async_lock::RwLock<T>, Gate);
 
     impl<T> RwLock<T> {
         pub const fn new(t: T) -> Self {
-            Self(::async_lock::RwLock::new(t))
+            Self(::async_lock::RwLock::new(t), Gate::new())
         }
         pub async fn read(&self) -> RwLockReadGuard<'_, T> {
+            if !super::installed() {
+                return RwLockReadGuard(self.0.read().await, None);
+            }
             super::yield_point().await;
-            self.0.read().await
+            self.1.enter(false).await;
+            let pass = self.1.pass(false);
+            RwLockReadGuard(self.0.try_read().expect(UNCONTENDED), Some(pass))
         }
         pub async fn write(&self) -> RwLockWriteGuard<'_, T> {
+            if !super::installed() {
+                return RwLockWriteGuard(self.0.write().await, None);
+            }
             super::yield_point().await;
-            self.0.write().await
+            self.1.enter(true).await;
+            let pass = self.1.pass(true);
+            let guard = RwLockWriteGuard(self.0.try_write().expect(UNCONTENDED), Some(pass));
+            super::held_point().await;
+            guard
         }
         pub fn try_read(&self) -> Option<RwLockReadGuard<'_, T>> {
-            self.0.try_read()
+            if !super::installed() {
+                return self.0.try_read().map(|g| RwLockReadGuard(g, None));
+            }
+            if !self.1.try_enter(false) {
+                return None;
+            }
+            let pass = self.1.pass(false);
+            self.0.try_read().map(|g| RwLockReadGuard(g, Some(pass)))
         }
         pub fn try_write(&self) -> Option<RwLockWriteGuard<'_, T>> {
-            self.0.try_write()
+            if !super::installed() {
+                return self.0.try_write().map(|g| RwLockWriteGuard(g, None));
+            }
+            if !self.1.try_enter(true) {
+                return None;
+            }
+            let pass = self.1.pass(true);
+            self.0.try_write().map(|g| RwLockWriteGuard(g, Some(pass)))
         }
     }
 
     #[derive(Debug, Default)]
-    pub struct Mutex<T>(::async_lock::Mutex<T>);
+    pub struct Mutex<T>(::async_lock::Mutex<T>, Gate);
 
     impl<T> Mutex<T> {
         pub const fn new(t: T) -> Self {
-            Self(::async_lock::Mutex::new(t))
+            Self(::async_lock::Mutex::new(t), Gate::new())
         }
         pub async fn lock(&self) -> MutexGuard<'_, T> {
+            if !super::installed() {
+                return MutexGuard(self.0.lock().await, None);
+            }
             super::yield_point().await;
-            self.0.lock().await
+            self.1.enter(true).await;
+            let pass = self.1.pass(true);
+            MutexGuard(self.0.try_lock().expect(UNCONTENDED), Some(pass))
         }
         pub fn lock_blocking(&self) -> MutexGuard<'_, T> {
+            if !super::installed() {
+                return MutexGuard(self.0.lock_blocking(), None);
+            }
             // under a controlled (single-threaded) executor a blocking acquisition of a lock
             // that is held by a suspended task can never succeed: report the deadlock instead
             // of hanging the harness
-            if super::installed() {
-                return self
-                    .0
-                    .try_lock()
-                    .expect("verif: lock_blocking would deadlock - the lock is held by a suspended task");
-            }
-            self.0.lock_blocking()
+            assert!(
+                self.1.try_enter(true),
+                "verif: lock_blocking would deadlock - the lock is held by a suspended task"
+            );
+            let pass = self.1.pass(true);
+            MutexGuard(self.0.try_lock().expect(UNCONTENDED), Some(pass))
         }
         pub fn try_lock(&self) -> Option<MutexGuard<'_, T>> {
-            self.0.try_lock()
+            if !super::installed() {
+                return self.0.try_lock().map(|g| MutexGuard(g, None));
+            }
+            if !self.1.try_enter(true) {
+                return None;
+            }
+            let pass = self.1.pass(true);
+            self.0.try_lock().map(|g| MutexGuard(g, Some(pass)))
         }
     }
 }
